@@ -65,6 +65,18 @@ VARIANTS = [
       "@numba.njit(cache=True, boundscheck=False)\n"
       "def first_city(x: np.ndarray, k: int) -> int:\n"
       "    return x[k]\n\n\nclass TourLength(Objective):", "fire", "D13.2"),
+    V("errors-swapped-scratch", T + "errors.py",
+      "                            self.__temp_1, self.__temp_2)",
+      "                            self.__temp_2, self.__temp_1)", "fire",
+      "D13.3"),
+    V("enc2-swapped-tables", E2,
+      "                           self.__instance.bin_height, "
+      "self.__bin_starts,\n                           self.__bin_ends)",
+      "                           self.__instance.bin_height, "
+      "self.__bin_ends,\n                           self.__bin_starts)",
+      "fire", "D13.3",
+      note="swapped tables: the kernel's range reasoning about each table "
+           "no longer matches the array it gets"),
     # silent
     V("silent-blocker-range-wraps", E1,
       "    min_down: int = packing_i1_bottom_y  # maximum move: down to "
